@@ -8,6 +8,10 @@ spec -> impl : TLC explores MC_Subset (every composite graph on NG glyphs with a
                else, components renumbered, every other component field kept, old/new maps inverse, SubsetRelation) and prints one CASE per
                finished run. The harness synthesizes the glyf font of each case, calls allsorts' subset::subset,
                reads the output with independent readers and compares with TLC's prescription by JSON equality.
+               MC_SubsetCff does the same for name-keyed CFF sources: every assignment of names (in and out of ISOAdobe
+               order) x accented glyphs (seac) x request list, the representation of the source (hdrSize, offSize, Top DICT
+               order, charset / Encoding forms, block order, Private DICT variants) rotating; replayed through subset and
+               prince::subset, the output read through allsorts' visitor AND by independent charset / charstring readers.
 impl -> spec : repository fonts (glyf, CFF name-keyed / CID-keyed / with subroutines, CFF2) and synthesized CFF-family fonts
                whose glyphs carry operands on every Type 2 number-encoding boundary (OpenType, re-wrapped as
                WOFF / WOFF2, the repository's own WOFF / WOFF2 files) x glyph id lists from patterns through
@@ -45,6 +49,14 @@ ASSUMPTIONS = [
     "short / long / unpadded / with unused bytes, a glyph without contours as no bytes or as a zero-contour record with or without "
     "instructions, flag encodings of simple glyphs, numberOfHMetrics from 1 to numGlyphs, sorted or unsorted table directory, CFF "
     "charset formats 0/1/2 and FDSelect formats 0/3) is a representation choice the prescription does not depend on (Subset.tla RepIndependent)",
+    "CFF subsets hold exactly the requested glyphs (nothing is pulled in): the outline of an accented glyph (seac form of endchar) is "
+    "demanded when its base and accent are among the requested glyphs; when one is not it may be missing, but if it draws it draws what "
+    "it drew in the source (Subset.tla Dev_SeacComponentsNotPulledIn)",
+    "how a CFF source is stored (hdrSize 4 / 5 / 8, header offSize, INDEX offSize larger than needed, order of the Top DICT operators, "
+    "offset operand forms, charset format 0 / 1 / 2 / predefined ISOAdobe (by omission or `0 charset`) / Expert / ExpertSubset, Encoding "
+    "absent / predefined / custom, order of the data blocks, Private DICT with or without Subrs and defaultWidthX / nominalWidthX, glyph "
+    "order in or out of ISOAdobe order, more or fewer than 229 glyphs) is a representation choice the prescription does not depend on "
+    "(Subset.tla CffRepIndependent); nested accented glyphs are compared through the visitor only where it reads the source as the model does",
     "retained sets on the size boundaries of what the subsetters write are chosen from the source's own lengths (subset-sum); where the "
     "implementation chooses encodings (Top DICT, FDArray, everything on the CFF2 -> CFF path) a ladder of sources / lists steps through "
     "a window of predicted sizes; what the independent reader then measures in the output is recorded and required last",
@@ -78,6 +90,55 @@ CONFIGS = {
     "quick": [("MC_Subset_quick.cfg", 25)],
     "thorough": [("MC_Subset_thorough_a.cfg", 60), ("MC_Subset_thorough_b.cfg", 60)],
 }
+CFF_CONFIGS = {"quick": "MC_SubsetCff_quick.cfg", "thorough": "MC_SubsetCff_thorough.cfg"}
+
+# name-keyed CFF cases (MC_SubsetCff): what the replayed cases must exercise, counted by the harness from the cases (inputs)
+CFF_CASE_FEATURES = (
+    ["rep:hdr=%d" % h for h in (4, 5, 8)] + ["rep:hoff=%d" % h for h in (1, 2, 3, 4)] + ["rep:ioff=%d" % h for h in (0, 2, 3, 4)] +
+    ["rep:top=%d" % h for h in range(4)] + ["rep:short=true", "rep:short=false"] +
+    ["rep:charset=%s" % c for c in ("f0", "f1", "f2", "iso-omitted", "iso-0")] +
+    ["rep:enc=%s" % c for c in ("absent", "standard", "expert", "custom0", "custom1")] +
+    ["rep:blocks=%d" % h for h in range(3)] + ["rep:gap=0", "rep:gap=3", "rep:priv=0", "rep:priv=1", "rep:subrs=true", "rep:subrs=false"] +
+    ["rep:widths=%d" % h for h in range(4)] +
+    ["names:isoadobe-order", "names:other-order", "accented:components-requested", "accented:component-not-requested",
+     "accented:closed-in-prefix-request:isoadobe-order", "accented:closed-in-prefix-request:other-order",
+     "accented:closed-in-permuted-request", "accented:source-has-no-outline"])
+
+# recorded name-keyed CFF sources with accented glyphs and representation variants (c07_subset/cffrep.rs): plan names and
+# representation facts, tallied when the call is made (harness inputs)
+SEAC_PLANS = ["all", "prefix:fewer-than-228", "prefix:228-or-229", "prefix:more-than-229", "prefix:more-than-255",
+              "accented-first-components-reversed", "minimal-closed", "minimal-closed-reordered", "all-reversed",
+              "components-omitted", "accent-omitted", "base-omitted", "components-alone"]
+
+
+def _cffrep_keys():
+    k = []
+    for what in SEAC_PLANS:
+        for order in ("iso-order", "other-order"):
+            k.append("seac:%s:%s|cff|subset" % (what, order))
+            if what not in ("all-reversed", "accent-omitted", "base-omitted", "components-alone"):
+                k.append("seac:%s:%s|cff|prince" % (what, order))
+    k += ["rep:%s|%s|%s" % (l, kind, api) for l in ("all", "prefix", "permuted") for kind in ("cff", "cid") for api in ("subset", "prince")]
+    for kind in ("cff", "cid"):
+        k += ["rep:source:%s:hdr-size-%d" % (kind, h) for h in (4, 5, 8)]
+        k += ["rep:source:%s:header-off-size-%d" % (kind, h) for h in (1, 2, 4)]
+        k += ["rep:source:%s:index-off-size-%s" % (kind, h) for h in ("minimal", "2", "3")]
+        k += ["rep:source:%s:top-dict-order-%d" % (kind, h) for h in range(4)]
+        k += ["rep:source:%s:offsets-%s" % (kind, h) for h in ("shortest-form", "five-byte-form")]
+        k += ["rep:source:%s:block-order-%d" % (kind, h) for h in range(3)]
+        k += ["rep:source:%s:subrs-gap-0" % kind]
+    k += ["rep:source:cff:hdr-size-12", "rep:source:cff:header-off-size-3", "rep:source:cff:index-off-size-4", "rep:source:cff:subrs-gap-3"]
+    k += ["rep:source:cff:charset-%s" % c for c in ("format-0", "format-1", "format-2", "isoadobe-by-omission", "isoadobe-predefined",
+                                                    "expert-predefined", "expertsubset-predefined")]
+    k += ["rep:source:cff:encoding-%s" % c for c in ("absent", "standard-predefined", "expert-predefined", "custom-format-0", "custom-format-1")]
+    k += ["rep:source:cff:private-dict-order-0", "rep:source:cff:private-dict-order-1", "rep:source:cff:private-with-subrs",
+          "rep:source:cff:private-without-subrs"]
+    k += ["rep:source:cff:widths-%s" % w for w in ("none", "defaultWidthX", "nominalWidthX", "defaultWidthX+nominalWidthX")]
+    k += ["rep:source:cff:glyph-order-%s" % o for o in ("isoadobe", "swap", "reverse", "late-swap", "expert", "expertsubset")]
+    k += ["rep:source:cff:glyphs-%s" % c for c in ("fewer-than-229", "229", "230-to-255", "more-than-255")]
+    k += ["seac:accented-glyph-retained-with-its-components", "seac:accented-glyph-retained-without-a-component",
+          "seac:accented-glyph-in-front-of-its-base", "seac:component-glyph-retained"]
+    return k
 
 
 def _case_features(c):
@@ -267,6 +328,10 @@ def _api(case):
 
 def _class(m):
     cls = "+".join(sorted(m["class"]))
+    if "accented" in m.get("ctx", ""):
+        # an accented glyph (seac) that does not draw what it drew in the source: lost or different is one class - which
+        # of the two depends on what the wrongly resolved name happens to hit
+        return "+".join(sorted({"outline" if c == "outline-lost" else c for c in m["class"]}))
     if "panic" in m["class"]:
         cls = "panic:" + m.get("err", "").replace("Panic:", "")
     elif "outline-lost" in m["class"]:
@@ -285,7 +350,10 @@ def _keys_trace(bad):
     for m in bad:
         g = (m["ev"], m["kind"], _class(m), _api(m["case"]))
         cont = "otf" if "otf" in groups[g] else _container(m["case"])
-        out.append("%s|%s|%s|%s|%s" % (g[0], g[1], g[2], cont, g[3]))
+        key = "%s|%s|%s|%s|%s" % (g[0], g[1], g[2], cont, g[3])
+        # what the glyph is (an accented glyph; a source without charset operator; a list that is converted to CID): part of
+        # what fails, so that one defect of accented glyphs does not hide another
+        out.append(key + ("|" + m["ctx"] if m.get("ctx") else ""))
     return out
 
 
@@ -317,6 +385,123 @@ def _generate_and_replay(ctx, binp, cfg, every, idx, features, samples):
     if rep.get("cases") != n_cases[0]:
         raise vlib.ToolError("replay consumed %s cases, TLC printed %d" % (rep.get("cases"), n_cases[0]))
     return mc, n_cases[0], rep, cases_path, mism_path, gen_trace
+
+
+def _generate_and_replay_cff(ctx, binp, cov):
+    """MC_SubsetCff: cases -> replay-cff. Returns (TlcResult, number of cases, harness summary, mismatches)."""
+    cfg = CFF_CONFIGS[ctx.tier]
+    cases_path = ctx.path("cff_cases.ndjson")
+    n_cases = [0]
+    tlc_feat = {}
+    sample = []
+    with open(cases_path, "w") as fc:
+        def sink(tag, payload):
+            if tag != "CASE":
+                return
+            fc.write(payload + "\n")
+            n_cases[0] += 1
+            if n_cases[0] % 5 == 0 or n_cases[0] < 500:
+                c = json.loads(payload)
+                acc = [i for i, g in enumerate(c["req"]) if c["glyphs"][g][0] == 1]
+                for i in acc:
+                    k = "closed" if c["closed"][i] else "open"
+                    tlc_feat["accented_requested_" + k] = tlc_feat.get("accented_requested_" + k, 0) + 1
+                    if c["exp"]["glyphs"][i][0] == [[-1, 0, 0]]:
+                        tlc_feat["accented_prescribed_without_outline"] = tlc_feat.get("accented_prescribed_without_outline", 0) + 1
+                    elif len(c["exp"]["glyphs"][i][0]) >= 2:
+                        tlc_feat["accented_prescribed_base_and_accent"] = tlc_feat.get("accented_prescribed_base_and_accent", 0) + 1
+                        if not sample and c["closed"][i] and c["names"] != sorted(c["names"]):
+                            sample.append(c)
+        mc = vlib.run_tlc(ctx, "MC_SubsetCff", cfg, "mccff", workers=4, timeout=600 if ctx.quick else 2400, sink=sink)
+    ctx.note("MC_SubsetCff/%s: %d states generated, %d distinct, %d cases, design invariants hold (%.1fs)" %
+             (cfg, mc.generated, mc.distinct, n_cases[0], mc.wall))
+    if n_cases[0] == 0:
+        raise vlib.ToolError("no CASE lines generated by %s" % cfg)
+    for k in ("accented_requested_closed", "accented_requested_open", "accented_prescribed_without_outline", "accented_prescribed_base_and_accent"):
+        if not tlc_feat.get(k):
+            raise vlib.ToolError("MC_SubsetCff generator is vacuous for %s" % k)
+    mism_path = ctx.path("cff_mismatches.ndjson")
+    rep = vlib.run_harness(binp, ["replay-cff", cases_path, mism_path], timeout=2400)
+    ctx.note("replay-cff %s: %s" % (cfg, json.dumps(rep)))
+    if rep.get("cases") != n_cases[0]:
+        raise vlib.ToolError("replay-cff consumed %s cases, TLC printed %d" % (rep.get("cases"), n_cases[0]))
+    missing = [k for k in CFF_CASE_FEATURES if not rep.get("features", {}).get(k)]
+    if missing:
+        raise vlib.ToolError("name-keyed CFF cases are vacuous for: %s" % missing)
+    mism = vlib.read_ndjson(mism_path)
+    for m in mism:
+        m["cfg"] = cfg
+    cov.update({"cff_cases": n_cases[0], "cff_states": mc.distinct, "cff_replay": rep, "cff_case_features_sampled": tlc_feat,
+                "cff_sample": sample[:1]})
+    return mc, n_cases[0], rep, mism, cases_path
+
+
+def _cff_violations(mism, per_key):
+    out = []
+    for m in mism:
+        key = "gencff|%s|%s" % (m["api"], m["class"]) + ("|" + m["ctx"] if m.get("ctx") else "")
+        per_key[key] = per_key.get(key, 0) + 1
+        if per_key[key] > 1:
+            continue
+        what = "generated name-keyed CFF case %s #%d through %s: %s (%s): input %s: prescribed %s, observed %s" % (
+            m["cfg"], m["case"], m["api"], m["class"], m.get("ctx", ""), vlib.short(m["input"], 400), vlib.short(m["exp"], 200), vlib.short(m["obs"], 300))
+        out.append(Violation(key, what, {"source": "generated-cff", "mismatch": m}))
+    return out
+
+
+def _selfcheck_replay_cff(ctx, binp, cases_path, reported, families=3):
+    """Corrupted prescriptions of name-keyed CFF cases must be reported, the untouched case not."""
+    goods = []
+    bad_cases = {m["case"] for m in reported}
+    with open(cases_path) as f:
+        for n, ln in enumerate(f, 1):
+            c = json.loads(ln)
+            acc = [i for i, g in enumerate(c["req"]) if c["glyphs"][g][0] == 1 and c["closed"][i] and len(c["exp"]["glyphs"][i][0]) >= 2]
+            if acc and n not in bad_cases and all(g["names"] != c["names"] for g in goods) and c["rep"]["charset"] != "iso-omitted":
+                goods.append(c)
+                if len(goods) >= families:
+                    break
+    if not goods:
+        raise vlib.ToolError("self-check (replay-cff): no case with a closed accented glyph")
+    kinds = ("token", "shift", "lost", "advance", "lsb", "count")
+    items = []
+    for good in goods:
+        items.append(good)
+        i = next(i for i, g in enumerate(good["req"]) if good["glyphs"][g][0] == 1 and good["closed"][i] and len(good["exp"]["glyphs"][i][0]) >= 2)
+        for what in kinds:
+            c = json.loads(json.dumps(good))
+            e = c["exp"]["glyphs"][i]
+            if what == "token":
+                e[0][0][0] = 77
+            elif what == "shift":
+                e[0][-1][1] += 1
+            elif what == "lost":
+                e[0] = [[-1, 0, 0]]
+            elif what == "advance":
+                e[1] += 7777
+            elif what == "lsb":
+                e[2] -= 7777
+            else:
+                c["exp"]["n"] += 1
+            items.append(c)
+    p = ctx.path("selfcheck_cff_cases.ndjson")
+    vlib.write_ndjson(p, items)
+    vlib.run_harness(binp, ["replay-cff", p, ctx.path("selfcheck_cff_mism.ndjson")])
+    got = {}
+    for m in vlib.read_ndjson(ctx.path("selfcheck_cff_mism.ndjson")):
+        got.setdefault(m["case"], set()).add(m["api"])
+    per = 1 + len(kinds)
+    valid = 0
+    for k in range(len(goods)):
+        base = k * per + 1
+        if base in got:
+            continue                      # the untouched case does not conform on this tree: proves nothing
+        valid += 1
+        missing = [kinds[j] for j in range(len(kinds)) if "subset" not in got.get(base + 1 + j, set())]
+        missing += [kinds[j] + "(prince)" for j in range(len(kinds)) if kinds[j] in ("token", "shift", "lost", "count") and "prince" not in got.get(base + 1 + j, set())]
+        if missing:
+            raise vlib.ToolError("binding self-check (replay-cff) failed: corrupted prescriptions %s not reported" % missing)
+    return valid, len(goods), len(kinds)
 
 
 def _selfcheck_replay(ctx, binp, cases_path, families=3):
@@ -575,6 +760,16 @@ def _run(ctx, found, cov):
     if missing:
         raise vlib.ToolError("generator is vacuous for: %s" % missing)
 
+    # spec -> impl, name-keyed CFF
+    mc_cff, n_cff, rep_cff, cff_mism, cff_cases = _generate_and_replay_cff(ctx, binp, cov)
+    states += mc_cff.distinct
+    generated += mc_cff.generated
+    total_cases += n_cff
+    found.extend(_cff_violations(cff_mism, {}))
+    cff_self = _selfcheck_replay_cff(ctx, binp, cff_cases, cff_mism)
+    if cff_self[0] == 0 and not cff_mism:
+        raise vlib.ToolError("binding self-check (replay-cff): no untouched case accepted, yet no mismatch reported")
+
     # impl -> spec
     vacuous = []
     rec_trace = ctx.path("rec_trace.ndjson")
@@ -584,7 +779,7 @@ def _run(ctx, found, cov):
     for k in ("fonts:glyf", "fonts:cff", "fonts:cid", "fonts:cff2", "fonts:cff_with_subroutines", "fonts:cid_with_subroutines",
               "rewrapped_woff", "rewrapped_woff2", "type1_converted_to_cid", "pulled_in_components",
               "glyphs_old_id_past_numberOfHMetrics", "ok:glyf:prince", "ok:cff:prince", "fonts:syn-cff2", "fonts:syn-cid") \
-            + RECORDED_COMPOSITE_FAMILIES + RECORDED_BOUNDARY_KEYS + tuple(_size_keys(ctx.quick)) + tuple(_measured_keys()):
+            + RECORDED_COMPOSITE_FAMILIES + RECORDED_BOUNDARY_KEYS + tuple(_size_keys(ctx.quick)) + tuple(_cffrep_keys()) + tuple(_measured_keys()):
         if tally.get(k, 0) == 0:
             # decided at the end: on a broken tree (subset calls that panic or fail) a family may be missing BECAUSE of
             # the defect, which is then reported as a violation; without such a violation it is a tool error
@@ -622,18 +817,18 @@ def _run(ctx, found, cov):
     real = [m for m in mism if not m["case"].startswith("selftest-")]
     if replay_self[0] == 0 and not gen_mism:
         raise vlib.ToolError("binding self-check (replay): no untouched case accepted, yet no generated mismatch reported")
-    self_verdict = _eval_selfcheck(fams, mism, bool(real) or bool(gen_mism))
+    self_verdict = _eval_selfcheck(fams, mism, bool(real) or bool(gen_mism) or bool(cff_mism))
     ctx.note("binding self-check: %s" % json.dumps(self_verdict))
     for k in ("subsets_ok", "with_pulled_in", "order_as_model", "outlines_nonempty", "metrics_compared", "records_compared",
               "composite_records", "kind_glyf", "kind_cff", "kind_cid", "kind_cff2",
               "comp_scale", "comp_xy_scale", "comp_two_by_two", "comp_two_by_two_asymmetric", "comp_negative_transform",
-              "comp_point_args", "composite_with_instructions", "transformed_outlines_compared"):
+              "comp_point_args", "composite_with_instructions", "transformed_outlines_compared", "seac_closed_compared"):
         if stats.get(k, 0) == 0:
             vacuous.append("judge:" + k)
 
     # violations
     per_key = {}
-    violations = _gen_violations(gen_mism, per_key)
+    violations = _gen_violations(gen_mism, per_key) + _cff_violations(cff_mism, per_key)
     bad = [m for m in mism if not m["case"].startswith("selftest-")]
     first = {}
     for m, key in zip(bad, _keys_trace(bad)):
@@ -683,10 +878,11 @@ def _run(ctx, found, cov):
         "families_not_exercised_on_this_tree": vacuous,
         "tlc_states_generated": generated,
         "binding_selfcheck": {"replay": "%d of %d families valid (untouched case accepted), %d corrupted prescriptions each, all reported" % replay_self,
+                              "replay_cff": "%d of %d families valid (untouched case accepted), %d corrupted prescriptions each, all reported" % cff_self,
                               "judge": self_verdict, "planted_events": len(planted)},
         "exhaustive": True,
-        "explanation": "exhaustive over the bounded model (configs %s); repository fonts: %s" % (
-            ", ".join(c for c, _ in CONFIGS[ctx.tier]), "seeded sample" if ctx.quick else "all, larger id lists"),
+        "explanation": "exhaustive over the bounded models (configs %s, %s); repository fonts: %s" % (
+            ", ".join(c for c, _ in CONFIGS[ctx.tier]), CFF_CONFIGS[ctx.tier], "seeded sample" if ctx.quick else "all, larger id lists"),
     })
     vlib.finish(ctx, LEVEL, coverage, violations, ASSUMPTIONS)
 
@@ -706,6 +902,19 @@ def replay(ctx, path):
             print("REPRODUCED class=%s prescribed=%s observed=%s" % (x["class"], vlib.short(x["exp"], 300), vlib.short(x["obs"], 300)))
         if not mm:
             print("not reproduced: the case now conforms (%s)" % json.dumps({k: v for k, v in rep.items() if k != "tally"}))
+        return 1 if mm else 0
+    if d["source"] == "generated-cff":
+        m = d["mismatch"]
+        case = dict(m["input"])
+        case["exp"] = m["exp"]
+        cp = ctx.path("cff_case.ndjson")
+        vlib.write_ndjson(cp, [case])
+        vlib.run_harness(binp, ["replay-cff", cp, ctx.path("cff_mism.ndjson")])
+        mm = [x for x in vlib.read_ndjson(ctx.path("cff_mism.ndjson")) if x["api"] == m["api"]]
+        for x in mm:
+            print("REPRODUCED api=%s class=%s ctx=%s prescribed=%s observed=%s" % (x["api"], x["class"], x["ctx"], vlib.short(x["exp"], 300), vlib.short(x["obs"], 300)))
+        if not mm:
+            print("not reproduced: the case now conforms")
         return 1 if mm else 0
     # recorded: run the recording again (same seed and tier as the evidence says) and judge the events of that case
     m = d["mismatch"]
